@@ -20,7 +20,9 @@ TECHNIQUE = ("deterministic simulation: prefixes of several epochs of the "
 RULE = ("case = generated dataset x interface in {sync, conc, async, rust, "
         "tfdata} x shuffle in {0,1,3,>N} x file_parallelism in 1..shards+5 "
         "(incl. values above and not a multiple of the shard count) x prefix "
-        "of m*N+r elements, m in 2..4. Oracle: every element belongs to the "
+        "of m*N+r elements, m in 2..4 (8% of the cases: 1300 epochs of a "
+        "1..3 example split; tf.data: the same dataset object iterated "
+        "partly, dropped and iterated again). Oracle: every element belongs to the "
         "split and is byte-exact; shuffle=0 => prefix of the one-pass sequence "
         "repeated; rust => every consecutive block of N is a permutation of "
         "the split; every next() completes within the step budget; after "
